@@ -619,7 +619,17 @@ func writeEvidence(pc *PropConfig, tier string, seed int, reports []*HarnessRepo
 	for _, v := range viols {
 		vl = append(vl, v.fingerprint)
 	}
+	vs, va, vd := 0, 0, 0
+	for _, r := range reports {
+		if r.Validation != nil {
+			vs += r.Validation.Sampled
+			va += r.Validation.Agreed
+			vd += len(r.Validation.Disagreed)
+		}
+	}
 	cov := map[string]any{
+		"encoding_validation": map[string]any{"proven_paths_replayed_natively": vs, "agreed": va, "disagreements": vd,
+			"rule": "a sample of the paths on which every assertion was proven is replayed natively with a solver model of the path condition; the native run must end ok (and, on single-goroutine paths, see the same labels)"},
 		"explanation":              pc.Explanation,
 		"evaluations":              total.Queries,
 		"distinct_nontrivial":      feasibleAssertPaths,
@@ -635,7 +645,7 @@ func writeEvidence(pc *PropConfig, tier string, seed int, reports []*HarnessRepo
 		"assertion_checks":         asserts,
 		"queries":                  map[string]int{"sat": total.Sat, "unsat": total.Unsat, "unknown": total.Unknown, "error": total.Errors, "total": total.Queries},
 		"solver_time_s":            total.Time.Seconds(),
-		"solver":                   "z3 4.8.12 (z3 -in, incremental); queries containing bvmul/bvudiv/bvsdiv/bvurem go to cvc5 1.0 --solve-bv-as-int=sum first",
+		"solver":                   "z3 4.8.12 (z3 -in, incremental); queries containing bvmul/bvudiv/bvsdiv/bvurem are raced against cvc5 1.0 --incremental --solve-bv-as-int=sum (first definite verdict wins)",
 		"load_and_ssa_build_s":     loadS,
 		"not_decided":              nd,
 		"known_findings_printed":   known,
